@@ -13,6 +13,9 @@
  *   split_close <hex>                            MHD_websocket_split_close_reason
  *   utf8 <hex> <step>                            static MHD_websocket_check_utf8 (white box)
  *   valid?  | invalidate
+ *   state                                        white box: the decoder's fields of the stream (decode_step, validity,
+ *                                                both utf8 steps, data_type, sizes, payload_index, mask_key, the
+ *                                                frame_header bytes received, the payload bytes copied so far)
  *   accept <key-hex>                             MHD_websocket_create_accept_header
  *
  * Every input buffer is an exact-size heap block (ASan sees over-reads); every payload returned
@@ -212,6 +215,27 @@ int main (void)
       r = MHD_websocket_check_utf8 ((const char *) x, n, &step, &off);
       printf ("u %d %d %zu\n", r, step, off);
       free (x);
+    }
+    else if (0 == strcmp (op, "state") && 1 == l.n)
+    {
+      /* only bytes the decoder has written are printed (the rest of the allocations is uninitialised) */
+      size_t dn = 0, cn = 0;
+      if (NULL != ws->data_payload)
+        dn = (MHD_WebSocket_DecodeStep_PayloadOfDataFrame == ws->decode_step)
+             ? (size_t) (ws->data_payload_start - ws->data_payload) + ws->payload_index : ws->data_payload_size;
+      if (NULL != ws->control_payload && MHD_WebSocket_DecodeStep_PayloadOfControlFrame == ws->decode_step)
+        cn = ws->payload_index;
+      printf ("s step=%d v=%d du=%d cu=%d dt=%d hs=%zu ds=%zu ps=%zu pi=%zu mask=",
+              (int) ws->decode_step, (int) ws->validity, (int) ws->data_utf8_step, (int) ws->control_utf8_step,
+              (int) ws->data_type, ws->frame_header_size, ws->data_payload_size, ws->payload_size, ws->payload_index);
+      lp_puthex (stdout, ws->mask_key, 4);
+      printf (" hdr=");
+      lp_puthex (stdout, ws->frame_header, ws->frame_header_size <= 32 ? ws->frame_header_size : 32);
+      printf (" data=%s", ws->data_payload ? "" : "null");
+      if (ws->data_payload) lp_puthex (stdout, ws->data_payload, dn);
+      printf (" ctrl=%s", ws->control_payload ? "" : "null");
+      if (ws->control_payload) lp_puthex (stdout, ws->control_payload, cn);
+      puts ("");
     }
     else if (0 == strcmp (op, "valid?") && 1 == l.n)
       printf ("v=%d\n", (int) MHD_websocket_stream_is_valid (ws));
